@@ -401,6 +401,53 @@ def fitgridJ (j : Json) : M Json := do
   let g := Dnp.Fit.fitGrid (fun n => (n : Rat)) coord lo hi fp
   pure (Json.mkObj [("outcome", "ok"), ("grid", Json.arr (g.map ratJ).toArray)])
 
+/-- VnmrJ parameter file (C06): `print` writes a parameter list as token lines, `parse` reads token lines back and applies
+    `array_coords`.  A token that consists of decimal digits only is a `num` (what `int()` accepts without sign), anything else
+    a `txt`; the numeric readings `array_coords` needs (float(t) == 1, float(stop) > float(start)) are supplied by the caller. -/
+def tokOf (s : String) : Dnp.Procpar.Tok :=
+  if s ≠ "" ∧ s.toList.all Char.isDigit then (match s.toNat? with | some n => .num n | none => .txt s) else .txt s
+
+def pvalJ : Dnp.Procpar.PVal → Json
+  | .real v => Json.mkObj [("k", "real"), ("v", Json.arr #[Json.str v.text])]
+  | .reals vs => Json.mkObj [("k", "reals"), ("v", Json.arr (vs.map (fun t => Json.str t.text)).toArray)]
+  | .str s => Json.mkObj [("k", "str"), ("v", Json.arr #[Json.str s])]
+  | .strs ss => Json.mkObj [("k", "strs"), ("v", Json.arr (ss.map Json.str).toArray)]
+
+def jPval (j : Json) : M Dnp.Procpar.PVal := do
+  let k ← jStr (← jField j "k")
+  let v ← jStrList (← jField j "v")
+  match k with
+  | "real" => pure (.real (tokOf (v.headD "")))
+  | "reals" => pure (.reals (v.map tokOf))
+  | "str" => pure (.str (v.headD ""))
+  | "strs" => pure (.strs v)
+  | _ => throw s!"unknown parameter kind {k}"
+
+def procparJ (j : Json) : M Json := do
+  let mode ← jStr (← jField j "mode")
+  if mode == "print" then
+    let ps ← (← jArr (← jField j "params")).mapM (fun p => do
+      let nm ← jStr (← jField p "name")
+      pure (nm, ← jPval p))
+    let ls := Dnp.Procpar.print ps
+    pure (Json.mkObj [("outcome", "ok"),
+      ("lines", Json.arr (ls.map (fun l => Json.arr (l.map (fun t => Json.str t.text)).toArray)).toArray)])
+  else
+    let ls ← (← jArr (← jField j "lines")).mapM (fun l => do pure ((← jStrList l).map tokOf))
+    let ones ← jStrList (← jField j "ones")
+    let gt ← (← jField j "stop_gt_start").getBool?
+    let N : Dnp.Procpar.Num := { isOne := fun t => ones.contains t.text, gt := fun _ _ => gt }
+    match Dnp.Procpar.parse ls with
+    | .error e => pure (Json.mkObj [("outcome", Json.str ("raise:" ++ e.toString))])
+    | .ok ps =>
+      let arr := match Dnp.Procpar.arrayCoords N (Dnp.Procpar.lookup ps) with
+        | none => Json.null
+        | some (dim, .values vs) => Json.arr #[Json.str dim, "values", Json.arr (vs.map (fun t => Json.str t.text)).toArray]
+        | some (dim, .range a b c) => Json.arr #[Json.str dim, "range", Json.arr #[Json.str a.text, Json.str b.text, Json.str c.text]]
+      pure (Json.mkObj [("outcome", "ok"),
+        ("params", Json.arr (ps.map (fun p => Json.mkObj [("name", Json.str p.1), ("val", pvalJ p.2)])).toArray),
+        ("array", arr)])
+
 def lineshapeJ (j : Json) : M Json := do
   let kind ← jStr (← jField j "kind")
   let x ← (← jRatList (← jField j "x")).mapM (fun q => pure (ratToFloat q))
@@ -651,6 +698,12 @@ partial def loop (h : IO.FS.Stream) (out : IO.FS.Stream) (s : Store) : IO Unit :
     else
     if (j.getObjVal? "op").toOption == some (Json.str "fitgrid") then
       match fitgridJ j with
+      | .ok r => do out.putStrLn (Json.compress r); loop h out s
+      | .error e => do
+        out.putStrLn (Json.compress (Json.mkObj [("outcome", Json.str ("driver-error:" ++ e))])); loop h out s
+    else
+    if (j.getObjVal? "op").toOption == some (Json.str "procpar") then
+      match procparJ j with
       | .ok r => do out.putStrLn (Json.compress r); loop h out s
       | .error e => do
         out.putStrLn (Json.compress (Json.mkObj [("outcome", Json.str ("driver-error:" ++ e))])); loop h out s
